@@ -498,6 +498,17 @@ class Executor:
 
     def e_Compare(self, node, st):
         left = self.eval(node.left, st)
+        if len(node.ops) == 1 and isinstance(left.kind, KRef) and type(node.ops[0]) in (ast.Gt, ast.Lt, ast.GtE, ast.LtE) \
+                and not self.spec_mode:
+            # a rich comparison overloaded to return an object (Track > n trims the track): keep the value
+            meth = {ast.Lt: "__lt__", ast.Gt: "__gt__", ast.LtE: "__le__", ast.GtE: "__ge__"}[type(node.ops[0])]
+            fi = self.find_method(left.kind.cls, meth)
+            if fi is not None:
+                right = self.eval(node.comparators[0], st)
+                r = self.call_function(fi, [left, right], {}, st, node)
+                if not isinstance(r.kind, (KBool, KInt)):
+                    return r
+                return vbool(truth(r))
         res = TRUE
         cur = st
         for op, rnode in zip(node.ops, node.comparators):
@@ -718,7 +729,7 @@ class Executor:
             return z3.simplify(t) if z3.is_int_value(z3.simplify(t)) else t
         if sl.step is not None:
             stp = self.eval(sl.step, st)
-            t = to_int(stp)
+            t = z3.simplify(to_int(stp))
             if z3.is_int_value(t) and t.as_long() == -1 and sl.lower is None and sl.upper is None:
                 return list_reverse(l)
             if sl.lower is None and sl.upper is None:
@@ -768,6 +779,10 @@ class Executor:
                 elif isinstance(it, ast.Call) and isinstance(it.func, ast.Name) and it.func.id == "refs":
                     v = z3.Int(uid(comp.target.id))
                     self.bound[comp.target.id] = vref(v, it.args[0].id)
+                    vars_.append(v)
+                elif isinstance(it, ast.Name) and it.id == "anys":
+                    v = z3.Int(uid(comp.target.id))
+                    self.bound[comp.target.id] = Val(ANY, [v])
                     vars_.append(v)
                 elif isinstance(it, ast.Name) and it.id == "strs":
                     v = z3.Int(uid(comp.target.id))
